@@ -367,6 +367,19 @@ class C05(Check):
         # spend with NADH top-up vs convert
         {"stores": [{"budget": 5, "gtp": 0, "nadh": 3, "max_debt": 5, "rate": 0.5}],
          "threads": [[["consume", 0, 8, "ATP", True, 0]], [["convert", 0, 3], ["regen", 0, 5, "ATP"]]]},
+        # a NADH-rich donor asked for more ATP than it holds (a transfer may not dip into the reserve), twice at once
+        {"stores": [{"budget": 10, "gtp": 0, "nadh": 10, "max_debt": 0, "rate": 0.5}, {"budget": 5, "gtp": 0, "nadh": 0, "max_debt": 0, "rate": 0.5}],
+         "threads": [[["transfer", 0, 1, 8, "ATP"]], [["transfer", 0, 1, 8, "ATP"]]]},
+        {"stores": [{"budget": 3, "gtp": 0, "nadh": 3, "max_debt": 0, "rate": 0.5}, {"budget": 5, "gtp": 0, "nadh": 0, "max_debt": 0, "rate": 0.5}],
+         "threads": [[["transfer", 0, 1, 5, "ATP"]], [["consume", 0, 2, "ATP", False, 0], ["transfer", 0, 1, 3, "ATP"]]]},
+        # a refused spend racing with income, then the same spend again (whatever a refusal leaves behind must not outlive
+        # the income)
+        {"stores": [{"budget": 100, "gtp": 0, "nadh": 0, "max_debt": 0, "rate": 0.5}], "explore": 260,
+         "threads": [[["consume", 0, 70, "ATP", False, 10], ["consume", 0, 50, "ATP", False, 10]],
+                     [["regen", 0, 40, "ATP"], ["consume", 0, 50, "ATP", False, 10]]]},
+        {"stores": [{"budget": 10, "gtp": 10, "nadh": 0, "max_debt": 0, "rate": 0.5}],
+         "threads": [[["consume", 0, 8, "GTP", False, 10], ["consume", 0, 5, "GTP", False, 10]],
+                     [["regen", 0, 5, "GTP"], ["consume", 0, 5, "GTP", False, 10]]]},
         # stores that report on stdout (the constructor's default): a transfer racing with calls that print under the lock
         {"stores": [{"budget": 100, "gtp": 0, "nadh": 0, "max_debt": 0, "rate": 0.5, "silent": False},
                     {"budget": 50, "gtp": 0, "nadh": 0, "max_debt": 0, "rate": 0.5, "silent": False}],
@@ -430,7 +443,8 @@ class C05(Check):
         out = []
         progs = list(self.CORPUS_PROGRAMS) + [self._rand_program(rng) for _ in range(n)]
         for p in progs:
-            out.extend(self._explore(p, bound, per))
+            # a corpus program may ask for a larger share of schedules (its window is reached late in the search order)
+            out.extend(self._explore(p, bound, max(per, p.get("explore", 0))))
         self.extra_cov["programs"] = len(progs)
         return out
 
